@@ -444,6 +444,8 @@ func declaredInputsRule(c *Ctx, r *Report, rule string, pick func(ai accessorInp
 			r.ok(rule, name, c.fnPos(ai.fn), fmt.Sprintf("reads %v, the declared inputs are %v: the same up to inputs that stand in for one another (%v), which the decision table R13.5 varies together", ai.atoms, sp.Atoms, eq))
 		} else if by, ok := decidedByTable[name]; ok {
 			r.ok(rule, name, c.fnPos(ai.fn), fmt.Sprintf("reads %v, the declared inputs are %v; the accessor is decided as a complete decision table by %s whatever it reads (the table states the value for every combination of the defining inputs)", ai.atoms, sp.Atoms, by))
+		} else if by, ok := auxDecidedBy[name]; ok && auxOnlyDifference(ai.atoms, sp.Atoms) {
+			r.ok(rule, name, c.fnPos(ai.fn), fmt.Sprintf("reads %v, the declared inputs are %v: the same but for pillar fields of the object it builds from its own date, which are decided by %s", ai.atoms, sp.Atoms, by))
 		} else if why, ok := toleratedByParts(c, spec, ai, sp.Atoms); ok {
 			r.ok(rule, name, c.fnPos(ai.fn), fmt.Sprintf("reads %v, the declared inputs are %v; the difference is that of %s", ai.atoms, sp.Atoms, why))
 		} else {
